@@ -421,7 +421,7 @@ impl Buffer {
     fn remove_terminal_line(&mut self, layer: usize, line: i32) {
         #[cfg(icy_engine_verif)]
         crate::verif::tick(1);
-        if line >= self.layers[layer].get_line_count() {
+        if line < 0 || line >= self.layers[layer].get_line_count() {
             return;
         }
         self.layers[layer].remove_line(line);
@@ -438,6 +438,9 @@ impl Buffer {
             if end < self.layers[layer].get_line_count() {
                 self.layers[layer].lines.remove(end as usize);
             }
+        }
+        if line < 0 {
+            return;
         }
         let buffer_width = self.layers[layer].get_width();
         self.layers[layer].insert_line(line, Line::with_capacity(buffer_width));
